@@ -11,6 +11,8 @@ const (
 	DefaultDirMode  os.FileMode = 0755
 )
 
+var errSameFile = errors.New("source and destination are the same file")
+
 // CopyFile reads data from source file and writes to target file.
 // If the target file already exists, it is overwritten.
 func CopyFile(srcPath, destPath string) (int64, error) {
@@ -24,7 +26,7 @@ func CopyFile(srcPath, destPath string) (int64, error) {
 	if srcInfo, err := src.Stat(); err != nil {
 		return 0, err
 	} else if destInfo, err := os.Stat(destPath); err == nil && os.SameFile(srcInfo, destInfo) {
-		return 0, &os.PathError{Op: "copy", Path: destPath, Err: errors.New("source and destination are the same file")}
+		return 0, &os.PathError{Op: "copy", Path: destPath, Err: errSameFile}
 	}
 
 	dest, err := os.Create(destPath)
@@ -39,6 +41,13 @@ func CopyFile(srcPath, destPath string) (int64, error) {
 // MoveFile moves the specified file from srcPath to destPath.
 // If os.Rename() fails, try to osutil.CopyFile() and then os.Remove().
 func MoveFile(srcPath, destPath string) (err error) {
+	// Renaming a symbolic link onto the file it points to would leave a link to itself and no data.
+	if srcInfo, err := os.Stat(srcPath); err == nil {
+		if destInfo, err := os.Stat(destPath); err == nil && os.SameFile(srcInfo, destInfo) {
+			return &os.PathError{Op: "move", Path: destPath, Err: errSameFile}
+		}
+	}
+
 	if err = os.Rename(srcPath, destPath); err == nil {
 		return nil
 	}
